@@ -74,6 +74,15 @@ fn exec<const B: usize, const L: usize>(m: &mut Mon, op: &str, a: &[Arg]) {
             if let Some(v) = m.must(|| &x / &y) {
                 m.eq_uint("op/.rr", &v, &eq);
             }
+            if a[0].u() == a[1].u() {
+                // both operands are the very same object
+                if let Some(v) = m.must(|| &x / &x) {
+                    m.eq_uint("op/.rr.alias", &v, &eq);
+                }
+                if let Some(v) = m.must(|| &x % &x) {
+                    m.eq_uint("op%.rr.alias", &v, &er);
+                }
+            }
             if let Some(v) = m.must(|| {
                 let mut z = x;
                 z /= y;
